@@ -51,6 +51,19 @@ func (f *Htfs) RealPath(path string) string {
 	return filepath.Join(f.root, abspath)
 }
 
+// Clone returns a filesystem on the same root with a working directory of
+// its own, starting at the root.
+func (f *Htfs) Clone() *Htfs {
+	if f == nil {
+		return nil
+	}
+
+	return &Htfs{
+		root: f.root,
+		cwd:  string(filepath.Separator),
+	}
+}
+
 func (f *Htfs) Cwd() string {
 
 	return f.cwd
